@@ -42,10 +42,11 @@ def norm (s : St N) : St N :=
   let a11 := Array.ofFn s.jobId
   let a12 := Array.ofFn s.jobEp
   let a13 := Array.ofFn s.hasResult
+  let a14 := Array.ofFn s.gen
   { s with parent := ofArr a1, alive := ofArr a2, depth := ofArr a3, q := ofArr a4,
            flag := ofArr a5, selfWait := ofArr a6, childWait := ofArr a7,
            quitWait := ofArr a8, out := ofArr a9, pc := ofArr a10, jobId := ofArr a11,
-           jobEp := ofArr a12, hasResult := ofArr a13 }
+           jobEp := ofArr a12, hasResult := ofArr a13, gen := ofArr a14 }
 
 def slotOf (ps : PState) (id : Int) : Option (Fin N) := (ps.slots.find? (fun p => p.1 == id)).map (·.2)
 
